@@ -1,10 +1,11 @@
-(* C18 — proofs, part 3: the action clauses (close at k, halts, no panic) of the
-   Conn.Write model, checked by computation over a finite family of
-   configurations, range starts, header lengths, write splits and grant
-   streams (a sweep: [forallb ... = true] by vm_compute, lifted with
-   forallb_forall).  NOT a proof for all sizes: see notes/C18.md. *)
+(* C18 — sanity test of the write-loop model by computation (NOT a proof
+   obligation of the property: the action clauses are proved for all inputs in
+   Proofs_Loop.v).  A small finite family of configurations, range starts,
+   write splits and grant streams is run through [run] and the clause
+   conclusions are checked as booleans; kept as a cheap regression test of the
+   model definitions (compiles in a few seconds). *)
 From Coq Require Import List ZArith Bool Ascii Arith Lia.
-From Martian.C18 Require Import Gen_Shape Model Proofs.
+From Martian.C18 Require Import Gen_Shape Model Proofs Proofs_Loop.
 Import ListNotations.
 Open Scope Z_scope.
 
@@ -20,7 +21,6 @@ Definition ev_eqb (a b : ev) : bool :=
 Definition has_stamp (p : Z) (e : ev) (l : list (Z * ev)) : bool :=
   existsb (fun pe => (fst pe =? p) && ev_eqb (snd pe) e) l.
 
-Definition is_closed (r : res) : bool := match r with RClosed _ => true | _ => false end.
 Definition is_bad (r : res) : bool := match r with RPanic | RFuel => true | _ => false end.
 
 (* everything the action clauses say about one run *)
@@ -46,7 +46,7 @@ Definition run_ok (acts : list action) (rs hl : Z) (ws : list bytes) (g : nat ->
      end.
 
 Definition kinds : list akind := [KHalt 1; KClose; KBw 7].
-Definition positions : list Z := [0; 1; 2; 4].
+Definition positions : list Z := [0; 2].
 Definition counts : list Z := [1; -1].
 
 Definition one_actions : list action :=
@@ -62,7 +62,7 @@ Definition splits (b : bytes) : list (list bytes) :=
   map (fun i => [firstn i b; skipn i b]) (seq 0 (S (length b))).
 
 Definition grant_streams : list (nat -> Z) :=
-  [fun _ => 1; fun _ => 2; fun _ => 1000; fun i => if Nat.even i then 1 else 3].
+  [fun _ => 1000; fun i => if Nat.even i then 1 else 3].
 
 Definition sweep2 : bool :=
   forallb (fun acts =>
@@ -71,12 +71,12 @@ Definition sweep2 : bool :=
         forallb (fun n =>
           forallb (fun ws => forallb (fun g => run_ok acts rs hl ws g) grant_streams)
                   (splits (payload n)))
-          [0; 3; 6]%nat)
+          [0; 5]%nat)
         [0; 2])
-      [0; 1; 2])
+      [0; 1])
     action_lists.
 
-Lemma sweep2_holds : sweep2 = true.
+Example sanity_sweep2 : sweep2 = true.
 Proof. vm_cast_no_check (eq_refl true). Qed.
 
 (* three actions, three-way splits, fewer other values *)
@@ -95,61 +95,11 @@ Definition sweep3 : bool :=
     forallb (fun rs =>
       forallb (fun hl =>
         forallb (fun ws => forallb (fun g => run_ok acts rs hl ws g) grant_streams)
-                (splits3 (payload 6)))
-        [0; 1])
+                (splits3 (payload 4)))
+        [1])
       [0; 2])
     action_lists3.
 
-Lemma sweep3_holds : sweep3 = true.
+Example sanity_sweep3 : sweep3 = true.
 Proof. vm_cast_no_check (eq_refl true). Qed.
 
-Lemma sweep2_forall acts rs hl n ws g :
-  In acts action_lists -> In rs [0; 1; 2] -> In hl [0; 2] -> In n [0; 3; 6]%nat ->
-  In ws (splits (payload n)) -> In g grant_streams -> run_ok acts rs hl ws g = true.
-Proof.
-  intros H1 H2 H3 H4 H5 H6. pose proof sweep2_holds as S. unfold sweep2 in S.
-  rewrite forallb_forall in S. specialize (S _ H1).
-  rewrite forallb_forall in S. specialize (S _ H2).
-  rewrite forallb_forall in S. specialize (S _ H3).
-  rewrite forallb_forall in S. specialize (S _ H4).
-  rewrite forallb_forall in S. specialize (S _ H5).
-  rewrite forallb_forall in S. exact (S _ H6).
-Qed.
-
-Lemma sweep3_forall acts rs hl ws g :
-  In acts action_lists3 -> In rs [0; 2] -> In hl [0; 1] ->
-  In ws (splits3 (payload 6)) -> In g grant_streams -> run_ok acts rs hl ws g = true.
-Proof.
-  intros H1 H2 H3 H5 H6. pose proof sweep3_holds as S. unfold sweep3 in S.
-  rewrite forallb_forall in S. specialize (S _ H1).
-  rewrite forallb_forall in S. specialize (S _ H2).
-  rewrite forallb_forall in S. specialize (S _ H3).
-  rewrite forallb_forall in S. specialize (S _ H5).
-  rewrite forallb_forall in S. exact (S _ H6).
-Qed.
-
-(* what run_ok = true says, as propositions *)
-Lemma run_ok_spec acts rs hl ws g : run_ok acts rs hl ws g = true ->
-  let s0 := fst (open_ctx true acts [] true rs hl None 0) in
-  let evs := snd (fst (run g s0 ws)) in
-  let r := snd (run g s0 ws) in
-  r <> RPanic /\ r <> RFuel /\
-  close_spec acts rs hl (concat ws) (emitted evs) (is_closed r) /\
-  (forall a, In a acts -> kind a <> KClose -> eff_count a <> 0 -> rs <= abyte a ->
-     hl + (abyte a - rs) < Zlength (emitted evs) ->
-     has_stamp (hl + (abyte a - rs)) (ev_of (kind a)) (stamps 0 evs) = true).
-Proof.
-  unfold run_ok. cbn zeta.
-  destruct (run g (fst (open_ctx true acts [] true rs hl None 0)) ws) as [[s' evs] r] eqn:R.
-  cbn [fst snd]. rewrite !andb_true_iff. intros [[[[B P] C] F] _].
-  split; [destruct r; try discriminate; cbn in B; discriminate|].
-  split; [destruct r; try discriminate; cbn in B; discriminate|].
-  split; [apply ok_close_iff; exact C|].
-  intros a Ha Hk Hc Hr Hn. rewrite forallb_forall in F. specialize (F a Ha).
-  assert (negb (eff_count a =? 0) && (rs <=? abyte a) && (hl + (abyte a - rs) <? Zlength (emitted evs)) = true) as E.
-  { rewrite !andb_true_iff, negb_true_iff, Z.eqb_neq, Z.leb_le, Z.ltb_lt. auto. }
-  destruct (kind a); [| congruence |]; rewrite E in F; exact F.
-Qed.
-
-Example sweep_sizes : (length action_lists, length action_lists3, length (splits3 (payload 6))) = (601, 64, 28)%nat.
-Proof. vm_compute. reflexivity. Qed.
